@@ -169,6 +169,10 @@ func (e *Engine) findHarnesses(filter string) ([]*Harness, error) {
 			}
 			h := &Harness{Name: fd.Name.Name, Unwind: 8, MaxPaths: 20000, MaxSteps: 20_000_000, MaxDecisions: 400, MaxConcretize: 64,
 				Stubs: map[string]*ssa.Function{}, Opaque: map[string]bool{}, MaxSwitches: 8}
+			if e.tier == "thorough" {
+				// default path budget of the thorough tier (a //verif:maxpaths directive overrides it)
+				h.MaxPaths = 600000
+			}
 			h.Fn = e.target.Func(fd.Name.Name)
 			if h.Fn == nil {
 				return nil, fmt.Errorf("no SSA function for %s", fd.Name.Name)
